@@ -11,6 +11,50 @@ open PVal (pyEq pyEqList pyEqDict dictGet dictSet seqItems?)
 
 variable {F : Type} [FloatOps F] [WireLaws F]
 
+/-! ### values that can be sent
+
+`Sendable dt v`: what the wire round trip needs of `v` — the declared value set (`Valid`) with the limits of the
+float leaves dropped: a double leaf is finite, a scaled leaf is a number the grid reproduces.  Every valid value is
+sendable (`valid_sendable`); so is what `from_string` makes of a text form (a re-read float may leave the limits:
+`'%g' % 123456789.0` reads back as `123457000.0`). -/
+
+mutual
+def Sendable : DType F → PVal F → Prop
+  | .double _ _ _ _, v =>
+    match v with
+    | .float x => FiniteNum x
+    | _ => False
+  | .scaled scale _ _ _ _, v =>
+    match v with
+    | .float x => SnapFix scale x ∧ isNaN x = false
+    | _ => False
+  | .array elem minlen maxlen, v =>
+    match v with
+    | .tuple vs => (∀ x ∈ vs, Sendable elem x) ∧ minlen ≤ vs.length ∧ vs.length ≤ maxlen
+    | _ => False
+  | .tuple elems, v =>
+    match v with
+    | .tuple vs => SendableZip elems vs
+    | _ => False
+  | .struct ms opt _, v =>
+    match v with
+    | .dict fields => (∀ kv ∈ fields, SendableMember ms kv.1 kv.2) ∧ (fields.map (·.1)).Nodup ∧
+        (∀ k ∈ ms.map (·.1), k ∉ opt → k ∈ fields.map (·.1))
+    | _ => False
+  | .int min max, v => InSetG SnapFix (.int min max) v
+  | .bool, v => InSetG SnapFix (.bool) v
+  | .enum ms, v => InSetG SnapFix (.enum ms) v
+  | .string a b c, v => InSetG SnapFix (.string a b c) v
+  | .blob a b, v => InSetG SnapFix (.blob a b) v
+def SendableZip : List (DType F) → List (PVal F) → Prop
+  | [], [] => True
+  | t :: ts, v :: vs => Sendable t v ∧ SendableZip ts vs
+  | _, _ => False
+def SendableMember : List (String × DType F) → String → PVal F → Prop
+  | [], _, _ => False
+  | (k, t) :: rest, key, v => if k = key then Sendable t v else SendableMember rest key v
+end
+
 /-! ### plumbing -/
 
 theorem median3_mid {a b c : F} (h1 : le a b = true) (h2 : le b c = true) : median3 a b c = b := by
@@ -112,15 +156,18 @@ theorem find_member {ms : List (String × Int)} {n : String} {k : Int} (hm : (n,
       simp only [this]
       exact ih h hnd.2
 
-theorem double_rt {min max ar rr x : F} (hwf : (DType.double min max ar rr).WF)
-    (hv : isNaN x = false ∧ le min x = true ∧ le x max = true) :
+/-- a value within the limits of a well-formed double type is finite -/
+theorem double_finite {min max ar rr x : F} (hwf : (DType.double min max ar rr).WF)
+    (hv : isNaN x = false ∧ le min x = true ∧ le x max = true) : FiniteNum x := by
+  simp only [DType.WF] at hwf
+  obtain ⟨hn, hlo, hhi⟩ := hv
+  exact ⟨hn, WireLaws.le_trans _ _ _ hwf.2.2.2.1 hlo, WireLaws.le_trans _ _ _ hhi hwf.2.2.2.2.1⟩
+
+theorem double_rt {min max ar rr x : F} (hfin : FiniteNum x) :
     exportValue (.double min max ar rr) (.float x) = .ok (.num x) ∧ FiniteNum x ∧
     importValue (.double min max ar rr) (.num x) = .ok (.float (addZero x)) ∧
     pyEq (.float (addZero x) : PVal F) (.float x) = true := by
-  simp only [DType.WF] at hwf
-  obtain ⟨hn, hlo, hhi⟩ := hv
-  have h1 : le (neg maxFinite) x = true := WireLaws.le_trans _ _ _ hwf.2.2.2.1 hlo
-  have h2 : le x maxFinite = true := WireLaws.le_trans _ _ _ hhi hwf.2.2.2.2.1
+  obtain ⟨hn, h1, h2⟩ := hfin
   refine ⟨rfl, ⟨hn, h1, h2⟩, ?_, ?_⟩
   · have hm : median3 (neg maxFinite) (addZero x) maxFinite = addZero x :=
       median3_mid (by rw [WireLaws.le_addZero_right]; exact h1) (by rw [WireLaws.le_addZero_left]; exact h2)
@@ -135,16 +182,17 @@ theorem int_rt {min max i : Int} (hwf : (DType.int min max : DType F).WF) (hv : 
   · simp [importValue, call, conv, PVal.ofJVal, intCall, hy, Except.map]
   · simp [pyEq, PVal.numeric?, PVal.numEq]
 
-theorem scaled_rt {scale min max ar rr x : F} (hv : SnapFix scale x ∧ BetweenSnapped scale min max x) :
+theorem between_notNaN {scale min max x : F} (hb : BetweenSnapped scale min max x) : isNaN x = false := by
+  unfold BetweenSnapped at hb
+  split at hb
+  · exact (WireLaws.le_notNaN _ _ hb.1).2
+  · exact hb.elim
+
+theorem scaled_rt {scale min max ar rr x : F} (hv : SnapFix scale x ∧ isNaN x = false) :
     ∃ k, exportValue (.scaled scale min max ar rr) (.float x) = .ok (.int k) ∧
       importValue (.scaled scale min max ar rr) (.int k) = .ok (.float x) ∧
       pyEq (.float x : PVal F) (.float x) = true := by
-  obtain ⟨hs, hb⟩ := hv
-  have hn : isNaN x = false := by
-    unfold BetweenSnapped at hb
-    split at hb
-    · exact (WireLaws.le_notNaN _ _ hb.1).2
-    · exact hb.elim
+  obtain ⟨hs, hn⟩ := hv
   unfold SnapFix IsSome at hs
   cases hsn : snap scale x with
   | none => rw [hsn] at hs; exact hs.elim
